@@ -488,8 +488,26 @@ def r01f(ck, prog):
             v["key"] = v["key"].replace("R15e", "R01f")
 
 
+def r01g(ck, prog):
+    """path -> per-sequence gap counts: the two new-gap vectors of make_seq are separate full-width arrays (= R10e), and
+    update_gaps only adds sums of their entries to the counts (= R10b)"""
+    from . import c10
+    before = len(ck.instances)
+    try:
+        c10.r10e(ck, prog)
+        c10.r10b(ck, prog)
+    finally:
+        for i in ck.instances[before:]:
+            i["rule"] = "R01g"
+        for v in ck.violations:
+            if v["rule"] in ("R10e", "R10b"):
+                v["key"] = v["key"].replace(v["rule"], "R01g")
+                v["rule"] = "R01g"
+
+
 def run(ck, progs):
     describe(ck)
+    ck.rule("R01g", "path -> gap counts: make_seq's two new-gap vectors never overlap and are int wide, update_gaps only adds sums of their entries (= R10e, R10b)")
     ck.rule("R01f", "the writers emit exactly the columns [0, alnlen) of every row (= R15e; recognised loop shapes only, otherwise no verdict)")
     ck.rule("R01e", "every loop over msa_seq.gaps covers all len+1 slots (row length = len + sum of gaps[0..len])")
     for cfg, prog in progs.items():
@@ -499,6 +517,7 @@ def run(ck, progs):
         ck.attempt(r01d, ck, prog)
         ck.attempt(r01e, ck, prog)
         ck.attempt(r01f, ck, prog)
+        ck.attempt(r01g, ck, prog)
     return ("CFG must-pass-through / precedence for the six pipeline stages of kalign_run and the three of kalign(); "
             "who-may-read/write table for msa_seq.rank over every function; provenance of every store into a row buffer "
             "and every residue print in the functions reachable from the exporters; status gate reachability and "
